@@ -31,6 +31,7 @@ import (
 	"time"
 
 	"github.com/mimiro-io/datahub/internal/server"
+	"github.com/mimiro-io/datahub/internal/service/types"
 	"github.com/mimiro-io/datahub/internal/verif/gen"
 	"github.com/mimiro-io/datahub/internal/verif/hub"
 	"github.com/mimiro-io/datahub/internal/verif/model"
@@ -553,6 +554,48 @@ func runC05Case(ctx *Ctx, c c05Case) {
 			}
 		}(cl)
 	}
+	// dataset churn (race stage): while scratch datasets are deleted, two goroutines keep asking the hub's own service
+	// accessor whether a dataset is deleted (what every compaction and service-layer lookup does per key)
+	churning := false
+	for _, l := range c.Ops {
+		for _, op := range l {
+			if op.Kind == "rmds" && len(op.DS) > 0 && strings.HasPrefix(op.DS[0], "tmp") {
+				churning = true
+			}
+		}
+	}
+	stopAsk := make(chan struct{})
+	var askWG sync.WaitGroup
+	var asked int64
+	if churning {
+		ba := server.NewBadgerAccess(core.Store, core.Dsm)
+		for g := 0; g < 2; g++ {
+			askWG.Add(1)
+			go func() {
+				defer askWG.Done()
+				defer func() { _ = recover() }()
+				for {
+					select {
+					case <-stopAsk:
+						return
+					default:
+					}
+					for k := 1; k <= 48; k++ {
+						_ = ba.IsDatasetDeleted(types.InternalDatasetID(k))
+					}
+					atomic.AddInt64(&asked, 48)
+					runtime.Gosched()
+				}
+			}()
+		}
+	}
+	defer func() {
+		close(stopAsk)
+		askWG.Wait()
+		if churning {
+			ctx.Out.Stat("c05_deleted_set_questions_during_churn", atomic.LoadInt64(&asked))
+		}
+	}()
 	close(start)
 	doneCh := make(chan struct{})
 	go func() { wg.Wait(); close(doneCh) }()
